@@ -206,6 +206,12 @@ func credentialIsSecure(credential string) error {
 		return fmt.Errorf("cannot parse credential: jws.ParseString: %w", err)
 	}
 
+	// A credential must carry exactly one signature, otherwise a signature by an authorized key could be combined
+	// with claims that are (also) signed by someone else (JSON serialization)
+	if len(message.Signatures()) > 1 {
+		return errors.New("multiple signatures are not permitted")
+	}
+
 	// Inspect the signatures in the message
 	secureSignatureCount := 0
 	for _, signature := range message.Signatures() {
